@@ -380,5 +380,47 @@ func checkC14(c *core.Ctx) {
 			})
 		}
 	}
+	// configs are decoupled: one config struct reused with different settings
+	c.Case("config/decoupled", true, func() core.Verdict {
+		x := enum.Generic([]int{2, 3, 2}, 480, 0.2, 2, true)
+		sc := &activations.SoftmaxConfig{}
+		var sms []*activations.Softmax
+		for d := 0; d < 3; d++ {
+			sc.Dim = d
+			sm, err := activations.NewSoftmax(sc)
+			if err != nil {
+				return core.Fail("NewSoftmax: %v", err)
+			}
+			sms = append(sms, sm)
+		}
+		sc.Dim = 2
+		for d, sm := range sms {
+			y, err := sm.Forward(rt.Make(x, false))
+			if err != nil {
+				return core.Fail("Softmax(%d).Forward: %v", d, err)
+			}
+			if ok, msg := core.RelClose(rt.Read(y), actModel("Softmax", 0, d, x), 1e-9, 1e-3); !ok {
+				return core.Fail("Softmax layer constructed with Dim %d (config struct reused afterwards): %s", d, msg)
+			}
+		}
+		lc := &activations.LeakyReluConfig{M: 0.2}
+		l1 := activations.NewLeakyRelu(lc)
+		lc.M = 5
+		l2 := activations.NewLeakyRelu(lc)
+		lc.M = -3
+		for k, e := range []struct {
+			l *activations.LeakyRelu
+			m float64
+		}{{l1, 0.2}, {l2, 5}} {
+			y, err := e.l.Forward(rt.Make(x, false))
+			if err != nil {
+				return core.Fail("LeakyRelu.Forward: %v", err)
+			}
+			if ok, msg := core.RelClose(rt.Read(y), actModel("LeakyRelu", e.m, 0, x), 1e-9, 1e-3); !ok {
+				return core.Fail("LeakyRelu layer %d constructed with M=%v (config struct changed afterwards): %s", k+1, e.m, msg)
+			}
+		}
+		return core.Pass()
+	})
 	reuseActivations(c, false)
 }
